@@ -8,36 +8,37 @@
 
    Crypto assumption (DESIGN.md section 3): a partial that verifies under share sh over root r exists only if the holder
    of sh signed r: a Byzantine member makes valid partials for ITS share over anything, invalid ones for any index, and
-   replays what was sent. *)
+   replays what was sent (a replay is a duplicate delivery: SExtC of the same `sent` entry again). *)
 EXTENDS Workflow
-CONSTANTS MDuties, SigDuties, MRoots, Budget,
+CONSTANTS MDuties, SigDuties, MRoots, Budget, ByzBudget,
           Prefix,     \* "none" | "fetched" (every node fetched and proposed every candidate) | "decided" (... and every node's
                       \* DutyDB stored the first candidate and served it to its validator client): windows into long behaviours
           Acts        \* subset of {"front", "back"}: which halves of the pipeline move
-VARIABLE left
-mvars == <<vars, left>>
+VARIABLES left, bleft
+mvars == <<vars, left, bleft>>
 Depth == Cardinality(DOMAIN open)
 Fresh == Depth + 1
 TopIs(evs) == Depth > 0 /\ open[Depth].ev \in evs
 Honest == Nodes \ Byz
 UOf(d, r) == IF d \in SigDuties THEN "" ELSE r
 USet(u) == {[v |-> 1, u |-> u]}
+First == CHOOSE r \in MRoots : TRUE
 Part(d, sh, r, ok) == [v |-> 1, k |-> 0, sh |-> sh, r |-> r, u |-> UOf(d, r), ok |-> ok]
 Agg(d, r, ok) == [v |-> 1, k |-> 0, r |-> r, u |-> UOf(d, r), ok |-> ok]
 \* partials a validator client of node n can make: with its own share (valid) or not (invalid, any claimed index)
 VCParts(d, n) == {Part(d, n, r, TRUE) : r \in MRoots} \cup {Part(d, sh, r, FALSE) : sh \in Nodes, r \in MRoots}
 \* what a Byzantine member can put on the wire
-ByzParts(d, z) == VCParts(d, z) \cup UNION {s.parts : s \in S(d).sent}
-Spend == left > 0 /\ left' = left - 1
-Keep == UNCHANGED left
+\* (invalid ones only matter when the exchange does not verify; over the candidate the honest members sign)
+ByzParts(d, z) == {Part(d, z, r, TRUE) : r \in MRoots} \cup (IF ExVerify /\ "ExchangeVerifies" \notin Off THEN {} ELSE {Part(d, sh, First, FALSE) : sh \in Nodes})
+Spend == left > 0 /\ left' = left - 1 /\ UNCHANGED bleft
+Keep == UNCHANGED <<left, bleft>>
 
-First == CHOOSE r \in MRoots : TRUE
 Fetched == [Empty EXCEPT !.fetchT = Nodes, !.fetched = {[n |-> n, u |-> u] : n \in Nodes, u \in MRoots},
                          !.proposed = {USet(u) : u \in MRoots}]
 Decided == [Fetched EXCEPT !.tried = {[n |-> n, set |-> USet(First)] : n \in Nodes},
                            !.stored = {[n |-> n, set |-> USet(First)] : n \in Nodes},
                            !.served = {[n |-> n, u |-> First] : n \in Nodes}]
-MCInit == /\ open = <<>> /\ left = Budget
+MCInit == /\ open = <<>> /\ left = Budget /\ bleft = ByzBudget
           /\ st = CASE Prefix = "none" -> <<>>
                     [] Prefix = "fetched" -> [d \in MDuties \ SigDuties |-> Fetched]
                     [] Prefix = "decided" -> [d \in MDuties \ SigDuties |-> Decided]
@@ -64,11 +65,11 @@ Return ==
        \/ c.ev = "Store" /\ \E err \in BOOLEAN : StoreR(Depth, c.n, c.d, err)
        \/ c.ev = "ADB" /\ \E err \in BOOLEAN : ADBR(Depth, c.n, c.d, err)
 Env ==
-  /\ Spend
-  /\ \E n \in Nodes, d \in MDuties :
-       \/ "front" \in Acts /\ Depth = 0 /\ d \notin SigDuties /\ \E u \in MRoots : BNAtt(n, d, u)
-       \/ "front" \in Acts /\ Depth <= 1 /\ d \notin SigDuties /\ \E u \in MRoots : Await(n, d, TRUE, u, FALSE)
-       \/ "back" \in Acts /\ Depth = 0 /\ \E to \in Nodes \ {n} : \E p \in ByzParts(d, n) : ByzSend(n, to, d, {p})
+  \E n \in Nodes, d \in MDuties :
+       \/ Spend /\ "front" \in Acts /\ Depth = 0 /\ d \notin SigDuties /\ \E u \in MRoots : BNAtt(n, d, u)
+       \/ Spend /\ "front" \in Acts /\ Depth <= 1 /\ d \notin SigDuties /\ \E u \in MRoots : Await(n, d, TRUE, u, FALSE)
+       \/ /\ "back" \in Acts /\ Depth = 0 /\ bleft > 0 /\ bleft' = bleft - 1 /\ UNCHANGED left
+          /\ \E to \in Nodes \ {n} : \E p \in ByzParts(d, n) : ByzSend(n, to, d, {p})
 MCNext == TopCall \/ Nested \/ Return \/ Env
 MCSpec == MCInit /\ [][MCNext]_mvars
 ====
